@@ -125,7 +125,10 @@ def check_ports(ctx, rng):
         peer = [addr_of[5700], addr_of[6700]] + [addr_of[p] for a, p, i in defs]
         defs = [(addr_of[p], bts if p == 5700 else (bb if p == 6700 else extra.get(p, p)), i) for a, p, i in defs]
         try:
-            s = Session(defs, bts, bb, bts_addr=addr_of[5700], bb_addr=addr_of[6700])
+            # -s <prio>: the clock thread asks for SCHED_RR priority prio + 1 before it ticks (refused by the kernel above 99, or for
+            # lack of privileges): whatever the answer, the clock must run
+            prio = rng.choice([None, None, 1, 50, 98, 99, 120])
+            s = Session(defs, bts, bb, bts_addr=addr_of[5700], bb_addr=addr_of[6700], sched_rr_prio=prio, privileged=rng.chance(1, 2))
         except Exception as e:  # noqa
             ctx.oracle_fail("the Application cannot be constructed from valid --trx definitions", dict(trx_defs=defs, exception="%s: %s" % (type(e).__name__, e)),
                             key="c12-constructor-raises:" + type(e).__name__)
@@ -155,6 +158,10 @@ def check_ports(ctx, rng):
             on = [k for k, t in enumerate(s.trxs) if t.clck_gen is not None and (k == 0 or rng.chance(1, 2))]
             for k in on:
                 s.ctrl(k, W.cmd("CMD RXTUNE 1")); s.ctrl(k, W.cmd("CMD TXTUNE 1")); s.ctrl(k, W.cmd("CMD POWERON"))
+            th = s.app.clck_gen._thread
+            if on and not s.app.clck_gen.running:
+                ctx.oracle_fail("a clock owner was powered on (RSP POWERON 0) but the clock generator is not running" + (": its thread died with %s" % th.died if getattr(th, "died", None) else ""),
+                                dict(trx_defs=defs, sched_rr_prio=prio, powered_on=on), key="c12-clock-not-running")
             for t in s.trxs:
                 if t.clck_gen is not None:
                     t.clck_if.sock.sent.clear()
